@@ -218,6 +218,9 @@ class Ctx:
         for (sig, what), n in sorted(known_hits.items()):
             print('KNOWN-FINDING: property=%s %s [sig=%s, re-observed %d×]' % (self.pid, what, sig, n))
         code = 0
+        import glob
+        for old in glob.glob(os.path.join(VERIF, 'replays', self.pid + '-*.json')):
+            os.remove(old)  # replays describe the latest run only
         if unlisted:
             os.makedirs(os.path.join(VERIF, 'replays'), exist_ok=True)
             seen = set()
